@@ -57,6 +57,8 @@ func vCaptchaValid(secret []byte, token string, now time.Time) bool {
 	return now.Sub(time.Unix(0, ts)) <= 5*time.Minute
 }
 
+var vTokenRe = regexp.MustCompile(`[A-Za-z0-9+/=]+\.[A-Za-z0-9+/=]+\.[A-Za-z0-9+/=]+`)
+
 func init() { vMonitors["C13"] = monC13 }
 
 func monC13(c *VCtx) {
@@ -146,6 +148,30 @@ func monC13(c *VCtx) {
 				}
 			}
 			continue
+		}
+		if !post.LastSolvedCaptcha.Equal(pre.Captcha) {
+			// the "recently solved a captcha" grace period may only be armed by a valid token
+			c.Count("c13_captcha_grace_armed")
+			ok := false
+			for _, m := range vTokenRe.FindAllString(e.Data+" "+pre.Pass+" "+post.Pass, -1) {
+				// the token may be glued to a "captcha=" style prefix: try every suffix behind an '='
+				// that precedes the first '.'
+				cands := []string{m}
+				dot := strings.IndexByte(m, '.')
+				for k := 0; k < dot; k++ {
+					if m[k] == '=' {
+						cands = append(cands, m[k+1:])
+					}
+				}
+				for _, tok := range cands {
+					if vCaptchaValid([]byte(v.Cfg.CaptchaHMACSecret), tok, time.Unix(0, e.UnixNano)) {
+						ok = true
+					}
+				}
+			}
+			if !ok {
+				rep("captcha grace period armed without a valid captcha", fmt.Sprintf("%s: LastSolvedCaptcha %v -> %v", vid(id), pre.Captcha, post.LastSolvedCaptcha))
+			}
 		}
 		if post.Operator && !pre.Operator {
 			c.Count("c13_oper_grants")
